@@ -185,7 +185,7 @@ def big_table(n=70001):
 # marginal configurations
 
 CONFIGS = ('default', 'gaussian-class', 'uniform-name', 'kde-instance', 'dict', 'truncated-class', 'beta-class',
-           'gamma-class')
+           'gamma-class', 'gaussian-instance')
 
 
 def make_config(name, columns):
@@ -198,6 +198,8 @@ def make_config(name, columns):
         return 'copulas.univariate.uniform.UniformUnivariate'
     if name == 'kde-instance':
         return U.GaussianKDE(bw_method=0.5)
+    if name == 'gaussian-instance':
+        return U.GaussianUnivariate()          # an instance prototype of a class that stores no constructor arguments
     if name == 'kde-wide-instance':
         return U.GaussianKDE(bw_method=3.0)          # kernels far wider than the data: mass beyond the KDE's own bounds
     if name == 'truncated-class':
